@@ -75,6 +75,7 @@ inductive AV where
                                       -- returns object i+1, the d-th returns `fin`
   | one (v : AV)                      -- a one-element list holding `v`
   | obj (n : Name)                    -- a map operand / layer (by identity)
+  | objCopy (n : Name)                -- a copy of that map (own data, same metamap content)
   | host (n : Name) (gen : Nat)       -- host object; gen = number of `copy()` steps from the original
   | found (layer : Name) (s : Slot) (k : Key)   -- value stored under `k` in that layer's data / `@meta`
   | core (m : CoreMod) (k : Key)      -- a core-library function
@@ -587,7 +588,9 @@ def equality (ne : Bool) (lhs rhs : Opd) : Out :=
   match lhs, rhs with
   | .prim .null, .prim .null => ⟨[], .ok (.bool (true != ne))⟩
   | .prim .null, _ => ⟨[], .ok (.bool (false != ne))⟩
-  | _, .prim .null => ⟨[], .ok (.bool (false != ne))⟩
+  -- a `null` on the right does not bypass the left operand's `@==` / `@!=` / `equal`: like every
+  -- other operand kind it is handed to the overload (documented behaviour; the implementation's
+  -- `(_, Null)` arm comes first: finding F-C17-9); without an overload the arms below give "unequal"
   | .prim a, .prim b =>
     if a == b && builtinEqKind a then ⟨[], .ok .builtin⟩ else ⟨[], .ok (.bool (false != ne))⟩
   | .prim _, _ => ⟨[], .ok (.bool (false != ne))⟩   -- no dispatch on the right operand
@@ -1031,7 +1034,10 @@ def reversed (o : Opd) : Out :=
         | some (tb, mvb) =>
           if mvb == .nonCallable then ⟨[], .err .type⟩
           else
-            match nextLoop tb .NextBack mvb m.av with
+            -- `Reversed::new` works on a copy of the iterator; the copy of an `@next` object gets its
+            -- own copy of the map's data (`MetaIterator::make_copy`, /repo 5ed8254), so `@next_back`
+            -- runs with `self` = that copy
+            match nextLoop tb .NextBack mvb (.objCopy m.top.name) with
             | (t, .ok xs) => ⟨t, .ok (.lst xs)⟩
             | (t, .error e) => ⟨t, .err e⟩
     | Option.none =>
@@ -1189,6 +1195,14 @@ def callPacked (o : Opd) : Out := callOp o
 
 /-- `KotoVm::run_write_op(WriteOp::IndexAssign, x, i, 5)` (host API): the same dispatch as `x[i] = 5` -/
 def apiIndexAssign (o : Opd) (i : IdxK) : Out := indexAssign o i
+
+/-- `KotoVm::run_binary_op(BinaryOp::AddAssign …, x, y)` (host API): the same dispatch as `x += y`
+with two distinct values; the result is the left operand -/
+def apiCompound (op : ArithOp) (lhs rhs : Opd) : Out := compound op lhs rhs false
+
+/-- `'{[x]:?}'`: inside a container rendered in a debug context the element is rendered exactly as
+by `'{x:?}'` — `@debug` first, `@display` as fallback -/
+def debugNested (o : Opd) : Out := debug o
 
 /-- `match x` with the arm `(others..., last) then last` on a map object with `@size` (returning
 `n ≥ 1`) and `@index`: the arm's size check, the slice `others...` (`@size`, `@index 0..n-1`), then
